@@ -7,10 +7,41 @@ import RtVerif.Base.StreamLaws
 namespace RtVerif.C17
 open RtVerif Bytes _root_.RtVerif.Stream
 
+/-! ## The instrumented scripted stream: the late-read counter is a passive passenger -/
+
+def csrcSem : Sem CSrc where
+  R := csrcReader
+  Inv := fun c => srcSem.Inv c.s
+  Dead := fun c => srcSem.Dead c.s
+  content := fun c => srcSem.content c.s
+  term := fun c => srcSem.term c.s
+  mu := fun c => srcSem.mu c.s
+  zeros := fun c => srcSem.zeros c.s
+  closes := fun c => srcSem.closes c.s
+  sealed := fun c => srcSem.sealed c.s
+
+theorem csrc_laws : Laws csrcSem where
+  read_inv := fun c k h => src_laws.read_inv c.s k h
+  read_term := fun c k => src_laws.read_term c.s k
+  read_content := fun c k h => src_laws.read_content c.s k h
+  read_len := fun c k h => src_laws.read_len c.s k h
+  read_err := fun c k e h => src_laws.read_err c.s k e h
+  read_mu := fun c k h => src_laws.read_mu c.s k h
+  read_mu_lt := fun c k h => src_laws.read_mu_lt c.s k h
+  read_zeros := fun c k h => src_laws.read_zeros c.s k h
+  zeros_lt := fun c h => src_laws.zeros_lt c.s h
+  read_closes := fun c k => src_laws.read_closes c.s k
+  read_sealed := fun c k => src_laws.read_sealed c.s k
+  dead_read := fun c k h => src_laws.dead_read c.s k h
+  dead_close := fun c h => src_laws.dead_close c.s h
+  close_dead := fun c h => src_laws.close_dead c.s h
+  close_sealed := fun c h => src_laws.close_sealed c.s h
+  close_unsealed := fun c h => src_laws.close_unsealed c.s h
+
 /-! ## The tower satisfies the reader laws at every depth -/
 
 def towerSem : (n : Nat) → Sem (Stack n)
-  | 0 => srcSem
+  | 0 => csrcSem
   | n + 1 => wrapSem (towerSem n)
 
 theorem towerSem_R : ∀ n, (towerSem n).R = tower n
@@ -20,12 +51,127 @@ theorem towerSem_R : ∀ n, (towerSem n).R = tower n
     rw [towerSem_R n]
 
 theorem tower_laws : ∀ n, Laws (towerSem n)
-  | 0 => src_laws
+  | 0 => csrc_laws
   | n + 1 => wrap_laws (tower_laws n)
 
 theorem towerSem_closes : ∀ n (st : Stack n), (towerSem n).closes st = botCloses n st
   | 0, _ => rfl
   | n + 1, ps => towerSem_closes n ps.2
+
+/-! ## Late reads: what never reaches the scripted stream
+
+A property of inner-reader states that every `read` preserves is preserved by everything a bufio
+layer does with the inner reader. -/
+
+section
+variable {σ : Type} (R : Reader σ) (P : σ → Prop) (hP : ∀ s k, P s → P (R.read s k).2)
+include hP
+
+theorem fillLoop_pres (i : Nat) (b : Buf) (s : σ) (h : P s) : P (fillLoop R i b s).2 := by
+  induction i generalizing s with
+  | zero => exact h
+  | succ i ih =>
+    rw [fillLoop_succ]
+    split
+    · exact hP _ _ h
+    · split
+      · exact ih _ (hP _ _ h)
+      · exact hP _ _ h
+
+theorem peekLoop_pres (i n : Nat) (b : Buf) (s : σ) (h : P s) : P (peekLoop R i n b s).2 := by
+  induction i generalizing b s with
+  | zero => exact h
+  | succ i ih =>
+    rw [peekLoop_succ]
+    split
+    · exact ih _ _ (fillLoop_pres R P hP _ _ _ h)
+    · exact h
+
+theorem hasContent_pres (b : Buf) (s : σ) (h : P s) : P (hasContent R b s).2.2 := by
+  rw [hasContent_eq]
+  split
+  · exact h
+  · show P (peek R b s 1).2.2
+    rw [peek_eq]
+    split <;> exact peekLoop_pres R P hP _ _ _ _ h
+
+theorem bread_pres (b : Buf) (s : σ) (k : Nat) (h : P s) : P (bread R b s k).2.2 := by
+  rcases bread_state R b s k with e | ⟨k', e⟩
+  · rw [e]; exact h
+  · rw [e]; exact hP _ _ h
+
+theorem drainLoop_pres (i : Nat) (s : σ) (k : Nat) (h : P s) : P (drainLoop R i s k).2 := by
+  induction i generalizing s with
+  | zero => exact h
+  | succ i ih =>
+    rw [drainLoop_succ]
+    split
+    · exact hP _ _ h
+    · exact ih _ (hP _ _ h)
+
+end
+
+/-- The scripted stream is out of reach of reads: it was never closed, or some peeking layer above
+it has been closed (and answers every read itself); its late-read counter stands at `c`. -/
+def Quiet (n : Nat) (c : Nat) (st : Stack n) : Prop :=
+  ((towerSem n).closes st = 0 ∨ (towerSem n).sealed st = true) ∧ botLate n st = c
+
+theorem tower_read_quiet : ∀ (n c : Nat) (st : Stack n) (k : Nat),
+    Quiet n c st → Quiet n c ((tower n).read st k).2
+  | 0, c, st, k, h => by
+    obtain ⟨h1, h2⟩ := h
+    have hc : st.s.closes = 0 := by
+      rcases h1 with h1 | h1
+      · exact h1
+      · cases h1
+    refine ⟨Or.inl ?_, ?_⟩
+    · show (towerSem 0).closes ((towerSem 0).R.read st k).2 = 0
+      rw [(tower_laws 0).read_closes]; exact hc
+    · show (if st.isClosed then st.late + 1 else st.late) = c
+      have : st.isClosed = false := by simp [CSrc.isClosed, hc]
+      rw [this]; exact h2
+  | n + 1, c, ps, k, h => by
+    obtain ⟨h1, h2⟩ := h
+    cases hcl : ps.1.closed with
+    | true =>
+      show Quiet (n + 1) c ((wrap (tower n)).read ps k).2
+      rw [wrap_read_closed _ _ _ hcl]; exact ⟨h1, h2⟩
+    | false =>
+      show Quiet (n + 1) c ((wrap (tower n)).read ps k).2
+      rw [wrap_read_open _ _ _ hcl]
+      have hq : Quiet n c ps.2 := by
+        refine ⟨?_, h2⟩
+        rcases h1 with h1 | h1
+        · exact Or.inl h1
+        · right
+          have h1 : (ps.1.closed || (towerSem n).sealed ps.2) = true := h1
+          rw [hcl] at h1; simpa using h1
+      have := bread_pres (tower n) (Quiet n c) (fun s k => tower_read_quiet n c s k) ps.1.b ps.2 k hq
+      refine ⟨?_, this.2⟩
+      rcases this.1 with h | h
+      · exact Or.inl h
+      · right
+        show (ps.1.closed || (towerSem n).sealed (bread (tower n) ps.1.b ps.2 k).2.2) = true
+        rw [h]; simp
+
+theorem tower_close_late : ∀ (n : Nat) (st : Stack n), botLate n ((tower n).close st).2 = botLate n st
+  | 0, _ => rfl
+  | n + 1, ps => by
+    show botLate (n + 1) ((wrap (tower n)).close ps).2 = botLate n ps.2
+    cases hcl : ps.1.closed with
+    | true => simp [wrap, hcl, botLate]
+    | false =>
+      simp only [wrap, hcl, Bool.false_eq_true, if_false, botLate]
+      exact tower_close_late n ps.2
+
+/-- What the close accounting of the Spec's tracker says about the reach of reads. -/
+theorem quiet_of_acct {n : Nat} {st : Stack n} {d : Nat} {l : Bool}
+    (h1 : (towerSem n).closes st = d + (if l then 1 else 0)) (h2 : (towerSem n).sealed st = l)
+    (hd : d = 0) (h3 : botLate n st = 0) : Quiet n 0 st := by
+  refine ⟨?_, h3⟩
+  cases l with
+  | true => exact Or.inr h2
+  | false => left; rw [h1, hd]; rfl
 
 /-! ## Simulation invariant -/
 
@@ -40,6 +186,7 @@ structure IsOpen (g : Scenario) (t : Track) (b : Body) : Prop where
   tclosed : t.closed = false
   directs : t.directs = 0
   lib : t.lib = false
+  late : botLate b.depth b.st = 0
 
 /-- The body has been closed. -/
 structure IsClosed (g : Scenario) (t : Track) (b : Body) : Prop where
@@ -47,7 +194,8 @@ structure IsClosed (g : Scenario) (t : Track) (b : Body) : Prop where
   tclosed : t.closed = true
   acct : g.kind = .src →
     (towerSem b.depth).closes b.st = t.directs + (if t.lib then 1 else 0) ∧
-    (towerSem b.depth).sealed b.st = t.lib
+    (towerSem b.depth).sealed b.st = t.lib ∧
+    (t.directs = 0 → botLate b.depth b.st = 0)
 
 def Sim (g : Scenario) (t : Track) (r : Req) : Prop :=
   r.cl = g.cl ∧ r.hdr = g.hdr ∧ r.limit = g.data.length + g.sched.length + 2 ∧
@@ -55,20 +203,25 @@ def Sim (g : Scenario) (t : Track) (r : Req) : Prop :=
   | none => g.kind = .nilpr ∧ t.rest = [] ∧ t.closed = false ∧ t.directs = 0 ∧ t.lib = false
   | some b => b.kind = g.kind ∧ (IsOpen g t b ∨ IsClosed g t b)
 
-theorem nilSrc_inv : srcSem.Inv nilSrc := ⟨rfl, (by intro h; cases h), Or.inr rfl⟩
+/-- Once a probe has taken the body over (`Track.probed`), the model's body is a peeking layer. -/
+def Wr (t : Track) (r : Req) : Prop := t.probed = true → ∃ b, r.body = some b ∧ 1 ≤ b.depth
+
+theorem wr_init (g : Scenario) : Wr { rest := g.sData } g.req := by intro h; cases h
+
+theorem nilSrc_inv : csrcSem.Inv nilSrc := ⟨rfl, (by intro h; cases h), Or.inr rfl⟩
 
 theorem sim_init (g : Scenario) (hok : okRuns g.sched = true) : Sim g { rest := g.sData } g.req := by
   refine ⟨rfl, rfl, rfl, ?_⟩
   cases hk : g.kind with
   | src =>
     simp only [Scenario.req, hk]
-    refine ⟨trivial, Or.inl ⟨⟨hok, fun _ => rfl, Or.inl rfl⟩, ?_, ?_, ?_, rfl, rfl, rfl, rfl, rfl⟩⟩
+    refine ⟨trivial, Or.inl ⟨⟨hok, fun _ => rfl, Or.inl rfl⟩, ?_, ?_, ?_, rfl, rfl, rfl, rfl, rfl, rfl⟩⟩
     · show g.data = g.sData; simp [Scenario.sData, hk]
     · show g.term = g.sTerm; simp [Scenario.sTerm, hk]
     · exact Nat.le_refl _
   | nobody =>
     simp only [Scenario.req, hk]
-    refine ⟨trivial, Or.inl ⟨nilSrc_inv, ?_, ?_, ?_, rfl, rfl, rfl, rfl, rfl⟩⟩
+    refine ⟨trivial, Or.inl ⟨nilSrc_inv, ?_, ?_, ?_, rfl, rfl, rfl, rfl, rfl, rfl⟩⟩
     · show [] = g.sData; simp [Scenario.sData, hk]
     · show Err.eof = g.sTerm; simp [Scenario.sTerm, hk]
     · show 0 + 0 ≤ _; omega
@@ -113,7 +266,9 @@ theorem has_open (b : Body) (ho : IsOpen g t b) :
   have h := hasContent_spec (tower_laws b.depth) b.st ho.inv
   rw [towerSem_R] at h
   obtain ⟨h1, h2, h3, h4, h5, h6, h7⟩ := h
-  refine ⟨by rw [h1, ho.content], ⟨h2, ?_, ?_, ?_, ?_, ?_, ho.tclosed, ho.directs, ho.lib⟩⟩
+  have hq := hasContent_pres (tower b.depth) (Quiet b.depth 0) (fun s k => tower_read_quiet _ _ s k) {} b.st
+    ⟨Or.inl ho.closes, ho.late⟩
+  refine ⟨by rw [h1, ho.content], ⟨h2, ?_, ?_, ?_, ?_, ?_, ho.tclosed, ho.directs, ho.lib, hq.2⟩⟩
   · show _ ++ (towerSem b.depth).content _ = t.rest; rw [h3, ho.content]
   · show (towerSem b.depth).term _ = _; rw [h4, ho.trm]
   · show (hasContent (tower b.depth) {} b.st).2.1.buf.length +
@@ -132,15 +287,32 @@ theorem has_closed (b : Body) (hc : IsClosed g t b) :
   refine ⟨h1, ⟨⟨h2, h3⟩, hc.tclosed, ?_⟩⟩
   intro hk
   have := hc.acct hk
-  refine ⟨?_, ?_⟩
+  refine ⟨?_, ?_, ?_⟩
   · show (towerSem b.depth).closes _ = _; rw [h4]; exact this.1
-  · show (false || (towerSem b.depth).sealed _) = _; rw [h5, Bool.false_or]; exact this.2
+  · show (false || (towerSem b.depth).sealed _) = _; rw [h5, Bool.false_or]; exact this.2.1
+  · intro hd
+    exact (hasContent_pres (tower b.depth) (Quiet b.depth 0) (fun s k => tower_read_quiet _ _ s k) {} b.st
+      (quiet_of_acct this.1 this.2.1 hd (this.2.2 hd))).2
 
 theorem step_has (r : Req) (hs : Sim g t r) :
     (specStep g t .hasBody (step r .hasBody).1).1 = true ∧
     Sim g (specStep g t .hasBody (step r .hasBody).1).2 (step r .hasBody).2 := by
   obtain ⟨hcl, hhdr, hlim, hb⟩ := hs
-  show ((!lenWF g || (hasBody r).1 == specAnswer g t) = true) ∧ Sim g t (hasBody r).2
+  show ((!lenWF g || (hasBody r).1 == specAnswer g t) = true) ∧
+    Sim g { t with probed := t.probed || takesOver g } (hasBody r).2
+  have frame : ∀ r', Sim g t r' → Sim g { t with probed := t.probed || takesOver g } r' := by
+    intro r' h
+    refine ⟨h.1, h.2.1, h.2.2.1, ?_⟩
+    have h4 := h.2.2.2
+    cases hb' : r'.body with
+    | none => rw [hb'] at h4; exact h4
+    | some b' =>
+      rw [hb'] at h4
+      refine ⟨h4.1, ?_⟩
+      rcases h4.2 with ho | hc
+      · exact Or.inl ⟨ho.inv, ho.content, ho.trm, ho.mu, ho.closes, ho.sld, ho.tclosed, ho.directs, ho.lib, ho.late⟩
+      · exact Or.inr ⟨hc.dead, hc.tclosed, hc.acct⟩
+  apply (fun (h : _ ∧ Sim g t (hasBody r).2) => And.intro h.1 (frame _ h.2))
   cases hwf : lenWF g
   · -- inconsistent length information: the answer is not judged, the state still is
     simp only [Bool.not_false, Bool.true_or, true_and]
@@ -154,7 +326,7 @@ theorem step_has (r : Req) (hs : Sim g t r) :
           rw [hbody] at hb
           refine ⟨hcl, hhdr, hlim, ?_⟩
           simp only
-          refine ⟨hb.1.symm, Or.inl ⟨nilSrc_inv, hb.2.1.symm, ?_, ?_, rfl, rfl, hb.2.2.1, hb.2.2.2.1, hb.2.2.2.2⟩⟩
+          refine ⟨hb.1.symm, Or.inl ⟨nilSrc_inv, hb.2.1.symm, ?_, ?_, rfl, rfl, hb.2.2.1, hb.2.2.2.1, hb.2.2.2.2, rfl⟩⟩
           · show Err.eof = g.sTerm; simp [Scenario.sTerm, hb.1]
           · show 0 + 0 ≤ _; omega
         | some b =>
@@ -188,7 +360,7 @@ theorem step_has (r : Req) (hs : Sim g t r) :
           rw [hbody] at hb
           refine ⟨by simp [specAnswer, hd, hb.2.1], hcl, hhdr, hlim, ?_⟩
           simp only
-          refine ⟨hb.1.symm, Or.inl ⟨nilSrc_inv, hb.2.1.symm, ?_, ?_, rfl, rfl, hb.2.2.1, hb.2.2.2.1, hb.2.2.2.2⟩⟩
+          refine ⟨hb.1.symm, Or.inl ⟨nilSrc_inv, hb.2.1.symm, ?_, ?_, rfl, rfl, hb.2.2.1, hb.2.2.2.1, hb.2.2.2.2, rfl⟩⟩
           · show Err.eof = g.sTerm; simp [Scenario.sTerm, hb.1]
           · show 0 + 0 ≤ _; omega
         | some b =>
@@ -231,6 +403,24 @@ theorem tower_read_dead (n : Nat) (st : Stack n) (k : Nat) (hD : (towerSem n).De
 section
 variable {g : Scenario} {t : Track}
 
+theorem closed_late_read {b : Body} (hc : IsClosed g t b) (k : Nat) (hk : g.kind = .src)
+    (hd : t.directs = 0) : botLate b.depth ((tower b.depth).read b.st k).2 = 0 :=
+  (tower_read_quiet _ _ _ k (quiet_of_acct (hc.acct hk).1 (hc.acct hk).2.1 hd ((hc.acct hk).2.2 hd))).2
+
+theorem closed_late_drain {b : Body} (hc : IsClosed g t b) (i k : Nat) (hk : g.kind = .src)
+    (hd : t.directs = 0) : botLate b.depth (drainLoop (tower b.depth) i b.st k).2 = 0 :=
+  (drainLoop_pres (tower b.depth) (Quiet b.depth 0) (fun s k => tower_read_quiet _ _ s k) i b.st k
+    (quiet_of_acct (hc.acct hk).1 (hc.acct hk).2.1 hd ((hc.acct hk).2.2 hd))).2
+
+theorem open_late_read {b : Body} (ho : IsOpen g t b) (k : Nat) :
+    botLate b.depth ((tower b.depth).read b.st k).2 = 0 :=
+  (tower_read_quiet _ _ _ k ⟨Or.inl ho.closes, ho.late⟩).2
+
+theorem open_late_drain {b : Body} (ho : IsOpen g t b) (i k : Nat) :
+    botLate b.depth (drainLoop (tower b.depth) i b.st k).2 = 0 :=
+  (drainLoop_pres (tower b.depth) (Quiet b.depth 0) (fun s k => tower_read_quiet _ _ s k) i b.st k
+    ⟨Or.inl ho.closes, ho.late⟩).2
+
 theorem step_nil (r : Req) (op : Op) (hop : op ≠ .hasBody) (hs : Sim g t r) (hb : r.body = none) :
     (specStep g t op (step r op).1).1 = true ∧ Sim g (specStep g t op (step r op).1).2 (step r op).2 := by
   have hk : g.kind = .nilpr := by
@@ -254,9 +444,10 @@ theorem step_read (r : Req) (k : Nat) (hs : Sim g t r) :
     · obtain ⟨h1, h2, h3, h4, h5, h6, h7, h8⟩ := tower_read_open b.depth b.st k ho.inv
       rw [ho.content] at h2
       simp only [ho.tclosed, Bool.false_eq_true, if_false]
+      have hl := open_late_read ho k
       generalize (tower b.depth).read b.st k = x at *
       refine ⟨?_, hcl, hhdr, hlim, hb.1, Or.inl ⟨h1, ?_, ?_,
-        (by have := ho.mu; show (towerSem b.depth).mu x.2 ≤ _; omega), ?_, ?_, rfl, ho.directs, ho.lib⟩⟩
+        (by have := ho.mu; show (towerSem b.depth).mu x.2 ≤ _; omega), ?_, ?_, rfl, ho.directs, ho.lib, hl⟩⟩
       · simp only [Bool.and_eq_true, decide_eq_true_eq]
         refine ⟨⟨h3, ?_⟩, ?_⟩
         · rw [List.isPrefixOf_iff_prefix, h2]; exact List.prefix_append _ _
@@ -274,6 +465,7 @@ theorem step_read (r : Req) (k : Nat) (hs : Sim g t r) :
       · show (towerSem b.depth).sealed x.2 = false; rw [h8, ho.sld]
     · obtain ⟨h1, h2, h3, h4, h5⟩ := tower_read_dead b.depth b.st k hc.dead
       simp only [hc.tclosed, if_true]
+      have hl := closed_late_read hc k
       generalize (tower b.depth).read b.st k = x at *
       refine ⟨?_, hcl, hhdr, hlim, hb.1, Or.inr ⟨h3, hc.tclosed, ?_⟩⟩
       · simp only [Bool.and_eq_true, Bool.or_eq_true, beq_iff_eq, List.isEmpty_iff]
@@ -288,7 +480,7 @@ theorem step_read (r : Req) (k : Nat) (hs : Sim g t r) :
       · intro hk
         have := hc.acct hk
         exact ⟨by show (towerSem b.depth).closes x.2 = _; rw [h4]; exact this.1,
-               by show (towerSem b.depth).sealed x.2 = _; rw [h5]; exact this.2⟩
+               by show (towerSem b.depth).sealed x.2 = _; rw [h5]; exact this.2.1, hl hk⟩
 
 end
 theorem tower_drain_frame (n : Nat) (st : Stack n) (k i : Nat) :
@@ -346,22 +538,24 @@ theorem step_drain (r : Req) (k : Nat) (hs : Sim g t r) :
       simp only [beq_self_eq_true, if_true]
       rcases hb.2 with ho | hc
       · obtain ⟨h1, h2, h3, h4, h5⟩ := tower_drain_safe b.depth b.st 0 r.limit ho.inv
+        have hlt := open_late_drain ho r.limit 0
         generalize drainLoop (tower b.depth) r.limit b.st 0 = x at *
         have hd := h5 rfl
         rw [hd, List.nil_append] at h2
-        refine ⟨by rw [hd]; rfl, hcl, hhdr, hlim, hb.1, Or.inl ⟨h1, ?_, ?_, ?_, ?_, ?_, ho.tclosed, ho.directs, ho.lib⟩⟩
+        refine ⟨by rw [hd]; rfl, hcl, hhdr, hlim, hb.1, Or.inl ⟨h1, ?_, ?_, ?_, ?_, ?_, ho.tclosed, ho.directs, ho.lib, hlt⟩⟩
         · show (towerSem b.depth).content x.2 = _; rw [← h2, ho.content]
         · show (towerSem b.depth).term x.2 = _; rw [h3, ho.trm]
         · have := ho.mu; show (towerSem b.depth).mu x.2 ≤ _; omega
         · show (towerSem b.depth).closes x.2 = 0; rw [f1, ho.closes]
         · show (towerSem b.depth).sealed x.2 = false; rw [f2, ho.sld]
       · obtain ⟨h1, h2⟩ := tower_drain_dead_any b.depth b.st 0 r.limit hc.dead
+        have hlt := closed_late_drain hc r.limit 0
         generalize drainLoop (tower b.depth) r.limit b.st 0 = x at *
         refine ⟨by rw [h1]; rfl, hcl, hhdr, hlim, hb.1, Or.inr ⟨h2, hc.tclosed, ?_⟩⟩
         intro hk
         have := hc.acct hk
         exact ⟨by show (towerSem b.depth).closes x.2 = _; rw [f1]; exact this.1,
-               by show (towerSem b.depth).sealed x.2 = _; rw [f2]; exact this.2⟩
+               by show (towerSem b.depth).sealed x.2 = _; rw [f2]; exact this.2.1, hlt hk⟩
     | succ k =>
       have hk0 : (k + 1 == 0) = false := by simp
       simp only [hk0, Bool.false_eq_true, if_false]
@@ -370,8 +564,9 @@ theorem step_drain (r : Req) (k : Nat) (hs : Sim g t r) :
         obtain ⟨h1, h2, h3, h4, h5⟩ :=
           tower_drain_open b.depth b.st (k + 1) r.limit ho.inv (Nat.succ_pos k) hmu
         simp only [ho.tclosed, Bool.false_eq_true, if_false]
+        have hlt := open_late_drain ho r.limit (k + 1)
         generalize drainLoop (tower b.depth) r.limit b.st (k + 1) = x at *
-        refine ⟨?_, hcl, hhdr, hlim, hb.1, Or.inl ⟨h2, h3, ?_, ?_, ?_, ?_, rfl, ho.directs, ho.lib⟩⟩
+        refine ⟨?_, hcl, hhdr, hlim, hb.1, Or.inl ⟨h2, h3, ?_, ?_, ?_, ?_, rfl, ho.directs, ho.lib, hlt⟩⟩
         · rw [h1, ho.content, ho.trm]; simp
         · show (towerSem b.depth).term x.2 = _; rw [h4, ho.trm]
         · have := ho.mu; show (towerSem b.depth).mu x.2 ≤ _; omega
@@ -382,13 +577,14 @@ theorem step_drain (r : Req) (k : Nat) (hs : Sim g t r) :
         obtain ⟨⟨e, h1⟩, h2⟩ := tower_drain_dead b.depth b.st (k + 1) (g.data.length + g.sched.length + 1)
           hc.dead (Nat.succ_pos k)
         simp only [hc.tclosed, if_true]
+        have hlt := closed_late_drain hc (g.data.length + g.sched.length + 1 + 1) (k + 1)
         generalize drainLoop (tower b.depth) (g.data.length + g.sched.length + 1 + 1) b.st (k + 1) = x at *
         refine ⟨by rw [h1]; rfl, hcl, hhdr, ?_, hb.1, Or.inr ⟨h2, hc.tclosed, ?_⟩⟩
         · show _ + 1 + 1 = _ + 2; omega
         · intro hk
           have := hc.acct hk
           exact ⟨by show (towerSem b.depth).closes x.2 = _; rw [f1]; exact this.1,
-                 by show (towerSem b.depth).sealed x.2 = _; rw [f2]; exact this.2⟩
+                 by show (towerSem b.depth).sealed x.2 = _; rw [f2]; exact this.2.1, hlt hk⟩
 
 end
 theorem tower_close_open (n : Nat) (st : Stack n) (hI : (towerSem n).Inv st) :
@@ -422,7 +618,12 @@ theorem tower_zero_sealed (st : Stack 0) : (towerSem 0).sealed st = false := rfl
 section
 variable {g : Scenario} {t : Track}
 
-theorem step_close (r : Req) (hs : Sim g t r) :
+theorem direct_false_of_depth {b : Body} (hd : 1 ≤ b.depth) : b.direct = false := by
+  unfold Body.direct
+  have : (b.depth == 0) = false := by rw [beq_eq_false_iff_ne]; omega
+  rw [this]; rfl
+
+theorem step_close (r : Req) (hs : Sim g t r) (hw : Wr t r) :
     (specStep g t .close (step r .close).1).1 = true ∧
     Sim g (specStep g t .close (step r .close).1).2 (step r .close).2 := by
   cases hbody : r.body with
@@ -430,8 +631,15 @@ theorem step_close (r : Req) (hs : Sim g t r) :
   | some b =>
     obtain ⟨hcl, hhdr, hlim, hb⟩ := hs
     rw [hbody] at hb
-    simp only [step, hbody, closeOp, specStep, true_and]
-    refine ⟨hcl, hhdr, hlim, hb.1, Or.inr ?_⟩
+    simp only [step, hbody, closeOp, specStep]
+    refine ⟨?_, hcl, hhdr, hlim, hb.1, Or.inr ?_⟩
+    · -- a probe took the body over: the model's body is a peeking layer, the close is not direct
+      cases hp : t.probed with
+      | false => rfl
+      | true =>
+        obtain ⟨b', hb', hd'⟩ := hw hp
+        rw [hbody] at hb'; cases hb'
+        rw [direct_false_of_depth hd']; rfl
     obtain ⟨bk, n, st⟩ := b
     have hbk : bk = g.kind := hb.1
     rcases hb.2 with ho | hc
@@ -442,15 +650,16 @@ theorem step_close (r : Req) (hs : Sim g t r) :
       have hc0 : (towerSem n).closes st = 0 := ho.closes
       have hd : t.directs = 0 := ho.directs
       have hl : t.lib = false := ho.lib
+      have hlt : botLate n ((tower n).close st).2 = 0 := by rw [tower_close_late]; exact ho.late
       cases n with
       | zero =>
-        refine ⟨?_, ?_⟩
+        refine ⟨?_, ?_, fun _ => hlt⟩
         · show (towerSem 0).closes ((tower 0).close st).2 = _
           rw [hcl', hc0]; simp [Body.direct, hd, hl]
         · show (towerSem 0).sealed ((tower 0).close st).2 = _
           rw [tower_zero_sealed]; simp [Body.direct, hl]
       | succ n =>
-        refine ⟨?_, ?_⟩
+        refine ⟨?_, ?_, fun _ => hlt⟩
         · show (towerSem (n + 1)).closes ((tower (n + 1)).close st).2 = _
           rw [hcl', hc0]; simp [Body.direct, hd]
         · show (towerSem (n + 1)).sealed ((tower (n + 1)).close st).2 = _
@@ -458,20 +667,24 @@ theorem step_close (r : Req) (hs : Sim g t r) :
     · refine ⟨tower_close_dead n st hc.dead, rfl, ?_⟩
       intro hk
       rw [hk] at hbk; subst hbk
-      obtain ⟨a1, a2⟩ := hc.acct hk
+      obtain ⟨a1, a2, a3⟩ := hc.acct hk
       have a1 : (towerSem n).closes st = t.directs + (if t.lib then 1 else 0) := a1
       have a2 : (towerSem n).sealed st = t.lib := a2
+      have a3 : t.directs = 0 → botLate n st = 0 := a3
+      have hlt : ∀ d', t.directs ≤ d' → d' = 0 → botLate n ((tower n).close st).2 = 0 := by
+        intro d' h1 h2; rw [tower_close_late]; exact a3 (by omega)
       cases n with
       | zero =>
         have hl : t.lib = false := by rw [← a2]; rfl
         have hcl' := tower_close_unsealed 0 st rfl
-        refine ⟨?_, ?_⟩
+        refine ⟨?_, ?_, ?_⟩
         · show (towerSem 0).closes ((tower 0).close st).2 = _
           rw [hcl', a1]; simp [Body.direct, hl]
         · show (towerSem 0).sealed ((tower 0).close st).2 = _
           rw [tower_zero_sealed]; simp [Body.direct, hl]
+        · exact hlt _ (by simp only; split <;> omega)
       | succ n =>
-        refine ⟨?_, ?_⟩
+        refine ⟨?_, ?_, ?_⟩
         · show (towerSem (n + 1)).closes ((tower (n + 1)).close st).2 = _
           cases hl : t.lib with
           | true =>
@@ -482,15 +695,84 @@ theorem step_close (r : Req) (hs : Sim g t r) :
             rw [tower_close_unsealed (n + 1) st a2, a1]; simp [Body.direct]
         · show (towerSem (n + 1)).sealed ((tower (n + 1)).close st).2 = _
           rw [tower_close_succ_sealed]; simp [Body.direct]
+        · exact hlt _ (by simp only; split <;> omega)
+
+theorem specStep_acct_other {g : Scenario} (t : Track) (op : Op) (o : Out) (hop : op ≠ .close) :
+    (specStep g t op o).2.directs = t.directs ∧ (specStep g t op o).2.lib = t.lib := by
+  cases op <;> cases o <;> simp only [specStep] <;> (try exact absurd rfl hop) <;>
+    (repeat' split) <;> first | exact ⟨rfl, rfl⟩ | exact ⟨trivial, trivial⟩ | simp
+
+theorem step_wrapped (r : Req) (op : Op) (b : Body) (hb : r.body = some b) (hd : 1 ≤ b.depth) :
+    (∃ b', (step r op).2.body = some b' ∧ 1 ≤ b'.depth) ∧
+    (op = .close → ∃ e, (step r op).1 = .cl e false) := by
+  cases op with
+  | hasBody =>
+    refine ⟨?_, fun h => by cases h⟩
+    show ∃ b', (hasBody r).2.body = some b' ∧ _
+    unfold hasBody
+    split
+    · exact ⟨b, hb, hd⟩
+    · split
+      · exact ⟨b, hb, hd⟩
+      · simp only [hb]; exact ⟨_, rfl, by show 1 ≤ b.depth + 1; omega⟩
+  | read k => simp only [step, hb, readOp]; exact ⟨⟨_, rfl, hd⟩, fun h => by cases h⟩
+  | drain k => simp only [step, hb, drainOp]; exact ⟨⟨_, rfl, hd⟩, fun h => by cases h⟩
+  | close =>
+    simp only [step, hb, closeOp]
+    refine ⟨⟨_, rfl, hd⟩, fun _ => ⟨((tower b.depth).close b.st).1, ?_⟩⟩
+    have : b.direct = false := by
+      unfold Body.direct
+      have : (b.depth == 0) = false := by
+        rw [beq_eq_false_iff_ne]; omega
+      rw [this]; rfl
+    rw [this]
+
+
+theorem specStep_probed_other {g : Scenario} (t : Track) (op : Op) (o : Out) (hop : op ≠ .hasBody) :
+    (specStep g t op o).2.probed = t.probed := by
+  cases op <;> cases o <;> simp only [specStep] <;> (try exact absurd rfl hop) <;>
+    (repeat' split) <;> rfl
+
+/-- The tracker's `probed` flag is only ever set when the model's body is a peeking layer. -/
+theorem step_wr {g : Scenario} {t : Track} (r : Req) (op : Op) (hs : Sim g t r) (hw : Wr t r) :
+    Wr (specStep g t op (step r op).1).2 (step r op).2 := by
+  intro hp
+  by_cases hop : op = .hasBody
+  · subst hop
+    have hp : (t.probed || takesOver g) = true := hp
+    cases hpr : t.probed with
+    | true =>
+      obtain ⟨b, hb, hd⟩ := hw hpr
+      exact (step_wrapped r .hasBody b hb hd).1
+    | false =>
+      rw [hpr, Bool.false_or] at hp
+      simp only [takesOver, undeclared, Bool.and_eq_true, Bool.not_eq_true', decide_eq_false_iff_not,
+        bne_iff_ne, ne_eq] at hp
+      obtain ⟨hcl, hhdr, _, hb⟩ := hs
+      show ∃ b, (hasBody r).2.body = some b ∧ 1 ≤ b.depth
+      unfold hasBody
+      have h1 : ¬ 0 < r.cl := by rw [hcl]; exact hp.1.2
+      have h2 : (!r.hdr.isEmpty) = false := by rw [hhdr, hp.1.1]; rfl
+      simp only [h1, if_false, h2, Bool.false_eq_true]
+      cases hbody : r.body with
+      | none => rw [hbody] at hb; exact absurd hb.1 hp.2
+      | some b => exact ⟨_, rfl, by show 1 ≤ b.depth + 1; omega⟩
+  · rw [specStep_probed_other t op _ hop] at hp
+    obtain ⟨b, hb, hd⟩ := hw hp
+    exact (step_wrapped r op b hb hd).1
 
 /-- One step of the model is accepted by the Spec's step, and the simulation carries on. -/
-theorem step_sim (r : Req) (op : Op) (hs : Sim g t r) :
-    (specStep g t op (step r op).1).1 = true ∧ Sim g (specStep g t op (step r op).1).2 (step r op).2 := by
-  cases op with
-  | hasBody => exact step_has r hs
-  | read k => exact step_read r k hs
-  | close => exact step_close r hs
-  | drain k => exact step_drain r k hs
+theorem step_sim (r : Req) (op : Op) (hs : Sim g t r) (hw : Wr t r) :
+    (specStep g t op (step r op).1).1 = true ∧ Sim g (specStep g t op (step r op).1).2 (step r op).2 ∧
+      Wr (specStep g t op (step r op).1).2 (step r op).2 := by
+  have h : (specStep g t op (step r op).1).1 = true ∧
+      Sim g (specStep g t op (step r op).1).2 (step r op).2 := by
+    cases op with
+    | hasBody => exact step_has r hs
+    | read k => exact step_read r k hs
+    | close => exact step_close r hs hw
+    | drain k => exact step_drain r k hs
+  exact ⟨h.1, h.2, step_wr r op hs hw⟩
 
 theorem runOps_cons (r : Req) (op : Op) (ops : List Op) :
     runOps r (op :: ops) = ((step r op).1 :: (runOps (step r op).2 ops).1, (runOps (step r op).2 ops).2) := rfl
@@ -500,15 +782,16 @@ theorem specGo_cons (t : Track) (op : Op) (ops : List Op) (o : Out) (outs : List
       ((specStep g t op o).1 && (specGo g (specStep g t op o).2 ops outs).1,
        (specGo g (specStep g t op o).2 ops outs).2) := rfl
 
-theorem run_sim (ops : List Op) (r : Req) (hs : Sim g t r) :
+theorem run_sim (ops : List Op) (r : Req) (hs : Sim g t r) (hw : Wr t r) :
     (specGo g t ops (runOps r ops).1).1 = true ∧
-    Sim g (specGo g t ops (runOps r ops).1).2 (runOps r ops).2 := by
+    Sim g (specGo g t ops (runOps r ops).1).2 (runOps r ops).2 ∧
+    Wr (specGo g t ops (runOps r ops).1).2 (runOps r ops).2 := by
   induction ops generalizing t r with
-  | nil => exact ⟨rfl, hs⟩
+  | nil => exact ⟨rfl, hs, hw⟩
   | cons op ops ih =>
     rw [runOps_cons, specGo_cons]
-    have h := step_sim r op hs
-    have h2 := ih (step r op).2 h.2
+    have h := step_sim r op hs hw
+    have h2 := ih (step r op).2 h.2.1 h.2.2
     exact ⟨by simp only [h.1, h2.1, Bool.and_self], h2.2⟩
 
 theorem sim_closes (r : Req) (hs : Sim g t r) : specCloses g t (reportedCloses g r) = true := by
@@ -527,6 +810,25 @@ theorem sim_closes (r : Req) (hs : Sim g t r) : specCloses g t (reportedCloses g
       rcases hb.2 with ho | hc
       · rw [ho.closes, ho.directs, ho.lib]; rfl
       · exact (hc.acct hk).1
+
+theorem sim_late (r : Req) (hs : Sim g t r) : specLate g t (reportedLate g r) = true := by
+  unfold specLate
+  cases hk : g.kind with
+  | nobody => rfl
+  | nilpr => rfl
+  | src =>
+    have hb := hs.2.2.2
+    cases hbody : r.body with
+    | none => rw [hbody] at hb; rw [hk] at hb; cases hb.1
+    | some b =>
+      rw [hbody] at hb
+      simp only [reportedLate, hk, hbody, bne_self_eq_false, Bool.false_or, Bool.or_eq_true, bne_iff_ne,
+        ne_eq, beq_iff_eq]
+      rcases hb.2 with ho | hc
+      · right; exact ho.late
+      · by_cases hd : t.directs = 0
+        · right; exact (hc.acct hk).2.2 hd
+        · left; exact hd
 
 end
 /-! ## Facts about the Spec itself, and about histories -/
@@ -570,7 +872,7 @@ theorem specGo_delivered (ops : List Op) (outs : List Out) (t : Track)
       simp only [Bool.and_eq_true] at h
       have hnc' : ∀ op ∈ ops, op ≠ .close := fun o ho => hnc o (List.mem_cons_of_mem _ ho)
       have hop : op ≠ .close := hnc op List.mem_cons_self
-      obtain ⟨rest, cl, di, li⟩ := t
+      obtain ⟨rest, cl, di, li, pr⟩ := t
       simp only at hc
       subst hc
       cases op with
@@ -617,7 +919,7 @@ theorem specGo_delivered (ops : List Op) (outs : List Out) (t : Track)
             refine ⟨this.1, ?_⟩
             show d ++ delivered outs ++ _ = rest
             rw [List.append_assoc, this.2]
-            have hr : (specStep g { rest := rest, directs := di, lib := li } (.drain (k + 1)) (.dr d e cap)).2.rest = [] := by
+            have hr : (specStep g { rest := rest, directs := di, lib := li, probed := pr } (.drain (k + 1)) (.dr d e cap)).2.rest = [] := by
               simp [specStep]
             rw [hr, List.append_nil, h1.1.1]
         | _ => simp [specStep] at h
@@ -690,36 +992,6 @@ theorem has_value {g : Scenario} {t : Track} (r : Req) (hs : Sim g t r) :
         · rw [(has_open b ho).1, ho.tclosed]; rfl
         · rw [(has_closed b hc).1, hc.tclosed]; rfl
 
-theorem specStep_acct_other {g : Scenario} (t : Track) (op : Op) (o : Out) (hop : op ≠ .close) :
-    (specStep g t op o).2.directs = t.directs ∧ (specStep g t op o).2.lib = t.lib := by
-  cases op <;> cases o <;> simp only [specStep] <;> (try exact absurd rfl hop) <;>
-    (repeat' split) <;> first | exact ⟨rfl, rfl⟩ | exact ⟨trivial, trivial⟩ | simp
-
-theorem step_wrapped (r : Req) (op : Op) (b : Body) (hb : r.body = some b) (hd : 1 ≤ b.depth) :
-    (∃ b', (step r op).2.body = some b' ∧ 1 ≤ b'.depth) ∧
-    (op = .close → ∃ e, (step r op).1 = .cl e false) := by
-  cases op with
-  | hasBody =>
-    refine ⟨?_, fun h => by cases h⟩
-    show ∃ b', (hasBody r).2.body = some b' ∧ _
-    unfold hasBody
-    split
-    · exact ⟨b, hb, hd⟩
-    · split
-      · exact ⟨b, hb, hd⟩
-      · simp only [hb]; exact ⟨_, rfl, by show 1 ≤ b.depth + 1; omega⟩
-  | read k => simp only [step, hb, readOp]; exact ⟨⟨_, rfl, hd⟩, fun h => by cases h⟩
-  | drain k => simp only [step, hb, drainOp]; exact ⟨⟨_, rfl, hd⟩, fun h => by cases h⟩
-  | close =>
-    simp only [step, hb, closeOp]
-    refine ⟨⟨_, rfl, hd⟩, fun _ => ⟨((tower b.depth).close b.st).1, ?_⟩⟩
-    have : b.direct = false := by
-      unfold Body.direct
-      have : (b.depth == 0) = false := by
-        rw [beq_eq_false_iff_ne]; omega
-      rw [this]; rfl
-    rw [this]
-
 /-- Once the body is a wrapper made by `HasBody`, no `Close` is the caller's own, and the tracker's
 `lib` flag records whether a `Close` happened. -/
 theorem run_wrapped {g : Scenario} (ops : List Op) (r : Req) (t : Track) (b : Body)
@@ -745,6 +1017,129 @@ theorem run_wrapped {g : Scenario} (ops : List Op) (r : Req) (t : Track) (b : Bo
       have : decide (Op.close = op) = false := by
         rw [decide_eq_false_iff_not]; exact fun h => hop h.symm
       simp [this]
+/-! ## Histories: before the first probe, after a probe -/
+
+theorem run_init (g : Scenario) (hok : okRuns g.sched = true) (ops : List Op) :
+    (specGo g { rest := g.sData } ops (runOps g.req ops).1).1 = true ∧
+    Sim g (specGo g { rest := g.sData } ops (runOps g.req ops).1).2 (runOps g.req ops).2 :=
+  have h := run_sim (g := g) ops g.req (sim_init g hok) (wr_init g)
+  ⟨h.1, h.2.1⟩
+
+theorem step_wrapped_out (r : Req) (op : Op) (b : Body) (hb : r.body = some b) (hd : 1 ≤ b.depth) :
+    ∀ e, (step r op).1 ≠ .cl e true := by
+  intro e
+  cases op with
+  | hasBody => intro h; cases h
+  | read k => simp only [step, hb, readOp]; intro h; cases h
+  | drain k => simp only [step, hb, drainOp]; intro h; cases h
+  | close =>
+    simp only [step, hb, closeOp, direct_false_of_depth hd]
+    intro h; cases h
+
+/-- Once the body is a wrapper made by `HasBody`, no `Close` is reported as landing directly on the
+caller's stream. -/
+theorem run_wrapped_outs (ops : List Op) (r : Req) (b : Body) (hb : r.body = some b) (hd : 1 ≤ b.depth) :
+    ∀ e, Out.cl e true ∉ (runOps r ops).1 := by
+  induction ops generalizing r b with
+  | nil => intro e h; cases h
+  | cons op ops ih =>
+    intro e
+    rw [runOps_cons]
+    obtain ⟨b', hb', hd'⟩ := (step_wrapped r op b hb hd).1
+    intro h
+    rcases List.mem_cons.mp h with h | h
+    · exact step_wrapped_out r op b hb hd e h.symm
+    · exact ih (step r op).2 b' hb' hd' e h
+
+theorem direct_true_of_depth {b : Body} (hd : b.depth = 0) (hk : b.kind = .src) : b.direct = true := by
+  unfold Body.direct; rw [hd, hk]; rfl
+
+theorem step_unwrapped (r : Req) (op : Op) (b : Body) (hb : r.body = some b) (hd : b.depth = 0)
+    (hk : b.kind = .src) (hop : op ≠ .hasBody) :
+    (∃ b', (step r op).2.body = some b' ∧ b'.depth = 0 ∧ b'.kind = .src) ∧
+    (op = .close → ∃ e, (step r op).1 = .cl e true) := by
+  cases op with
+  | hasBody => exact absurd rfl hop
+  | read k => simp only [step, hb, readOp]; exact ⟨⟨_, rfl, hd, hk⟩, fun h => by cases h⟩
+  | drain k => simp only [step, hb, drainOp]; exact ⟨⟨_, rfl, hd, hk⟩, fun h => by cases h⟩
+  | close =>
+    simp only [step, hb, closeOp, direct_true_of_depth hd hk]
+    exact ⟨⟨_, rfl, hd, hk⟩, fun _ => ⟨_, rfl⟩⟩
+
+/-- Before any probe the body is the caller's own stream: every `Close` is the caller's own. -/
+theorem run_unwrapped {g : Scenario} (ops : List Op) (r : Req) (t : Track) (b : Body)
+    (hb : r.body = some b) (hd : b.depth = 0) (hk : b.kind = .src)
+    (hnh : ∀ op ∈ ops, op ≠ .hasBody) :
+    (∃ b', (runOps r ops).2.body = some b' ∧ b'.depth = 0 ∧ b'.kind = .src) ∧
+    (specGo g t ops (runOps r ops).1).2.directs = t.directs + ops.count .close ∧
+    (specGo g t ops (runOps r ops).1).2.lib = t.lib := by
+  induction ops generalizing r t b with
+  | nil => exact ⟨⟨b, hb, hd, hk⟩, rfl, rfl⟩
+  | cons op ops ih =>
+    rw [runOps_cons, specGo_cons]
+    have hop : op ≠ .hasBody := hnh op List.mem_cons_self
+    obtain ⟨⟨b', hb', hd', hk'⟩, hcl⟩ := step_unwrapped r op b hb hd hk hop
+    have := ih (step r op).2 (specStep g t op (step r op).1).2 b' hb' hd' hk'
+      (fun o ho => hnh o (List.mem_cons_of_mem _ ho))
+    refine ⟨this.1, ?_, ?_⟩
+    · rw [this.2.1]
+      by_cases hc : op = .close
+      · obtain ⟨e, he⟩ := hcl hc
+        subst hc
+        rw [he]
+        simp [specStep]; omega
+      · have ha := specStep_acct_other (g := g) t op (step r op).1 hc
+        rw [ha.1, List.count_cons]
+        have : (op == Op.close) = false := by rw [beq_eq_false_iff_ne]; exact hc
+        simp [this]
+    · rw [this.2.2]
+      by_cases hc : op = .close
+      · obtain ⟨e, he⟩ := hcl hc
+        subst hc
+        rw [he]
+        simp [specStep]
+      · exact (specStep_acct_other (g := g) t op (step r op).1 hc).2
+
+/-- A history without `Close` leaves the close accounting alone. -/
+theorem specGo_noclose {g : Scenario} (ops : List Op) (outs : List Out) (t : Track)
+    (hnc : ∀ op ∈ ops, op ≠ .close) :
+    (specGo g t ops outs).2.directs = t.directs ∧ (specGo g t ops outs).2.lib = t.lib := by
+  induction ops generalizing outs t with
+  | nil => cases outs <;> exact ⟨rfl, rfl⟩
+  | cons op ops ih =>
+    cases outs with
+    | nil => exact ⟨rfl, rfl⟩
+    | cons o outs =>
+      rw [specGo_cons]
+      have := ih outs (specStep g t op o).2 (fun o ho => hnc o (List.mem_cons_of_mem _ ho))
+      have ha := specStep_acct_other (g := g) t op o (hnc op List.mem_cons_self)
+      exact ⟨by rw [this.1, ha.1], by rw [this.2, ha.2]⟩
+
+/-- On a request without declared length and with a body, a probe leaves a peeking layer. -/
+theorem probe_wraps {g : Scenario} {t : Track} (r : Req) (hs : Sim g t r) (hu : takesOver g = true) :
+    ∃ b, (step r .hasBody).2.body = some b ∧ 1 ≤ b.depth := by
+  have hw : Wr { t with probed := false } r := by intro h; cases h
+  have hs' : Sim g { t with probed := false } r := by
+    refine ⟨hs.1, hs.2.1, hs.2.2.1, ?_⟩
+    have h4 := hs.2.2.2
+    cases hb' : r.body with
+    | none => rw [hb'] at h4; exact h4
+    | some b' =>
+      rw [hb'] at h4
+      refine ⟨h4.1, ?_⟩
+      rcases h4.2 with ho | hc
+      · exact Or.inl ⟨ho.inv, ho.content, ho.trm, ho.mu, ho.closes, ho.sld, ho.tclosed, ho.directs, ho.lib, ho.late⟩
+      · exact Or.inr ⟨hc.dead, hc.tclosed, hc.acct⟩
+  exact step_wr r .hasBody hs' hw (by show (false || takesOver g) = true; rw [hu]; rfl)
+
+theorem req_body_src {g : Scenario} (hsrc : g.kind = .src) :
+    ∃ b, g.req.body = some b ∧ b.depth = 0 ∧ b.kind = .src := by
+  simp only [Scenario.req, hsrc]; exact ⟨_, rfl, rfl, rfl⟩
+
+theorem takesOver_of {g : Scenario} (hsrc : g.kind = .src) (hu : undeclared g = true) :
+    takesOver g = true := by
+  unfold takesOver; rw [hu, hsrc]; rfl
+
 theorem delivered_replicate_has (m : Nat) (a : Bool) : delivered (List.replicate m (Out.has a)) = [] := by
   induction m with
   | zero => rfl
